@@ -49,22 +49,26 @@
     post-selected bits become `Bra`s on the measured position; `from_tk_bits_in_order` — before the
     post-processing the bit wires leave in the order of the non-post-selected bits.
     These have the hypothesis `importable`: supported one- and two-qubit ops on existing, different
-    qubits, parameters on the lattice of multiples of 1/8, measured bits of rank below `n_bits` (it
-    holds when the post-selection keys are distinct bits of the circuit; this implication is not
-    proved).  `make_units_adjacent` is wrong for three units (`from_tk_adjacent_three_units`), which
-    no supported op has.
+    qubits, parameters on the lattice of multiples of 1/8, measured bits of rank below `n_bits`;
+    `from_tk_importable` — it holds for every `wellFormed` input (measurements of existing qubits
+    into existing bits, post-selection keys distinct bits of the circuit).
+    `from_tk_total` — on such an input whose post-processing has `n_bits` inputs the import returns
+    a circuit; `from_tk_import_partial` puts the four together.
+    `make_units_adjacent` is wrong for three units (`from_tk_adjacent_three_units`), which no
+    supported op has.
     `from_tk_postselection_deferred` — a decided witness of finding F33: the `Bra` of a post-selected
     measurement comes after a gate that tket applies after the measurement.
 
   NOT proved: `Tk.FromToRoundTrip` (importing the export of a circuit of the fragment gives the same
   canonical wire-id command list) is stated in Model/TkImport.lean and kept as a `Prop`;
-  `round_trip_example` is one instance, the check evaluates it on every generated export.  Totality
-  of the import on importable inputs is not proved either.
+  `round_trip_example` is one instance, the check evaluates it on every generated export.
+  Meaning (that the boxes compute what the tket ops compute, that a deferred post-selection is
+  harmless when `psFinal` holds) is not in the model: it rests on the oracle of the check.
   Not modelled: pytket's own renaming, command order and op semantics, `Circuit.upgrade`, the
   backend path — these rest on the oracle of the check.
 -/
 import Proofs.TkWitness
-import Proofs.TkImportTrace
+import Proofs.TkImportRank
 
 namespace DV.C13
 open DV DV.Tk
@@ -174,6 +178,30 @@ theorem from_tk_bits_in_order (inp : TkIn) (body : D) (himp : inp.importable = t
       (Tr.run body.layers).cmds = (ImpSpec.run inp).cmds := by
   rw [Tk.fromTkBody_trace himp h]; exact ⟨rfl, rfl⟩
 
+/-- A well-formed tket circuit is importable: the rank of a measured bit among the
+    non-post-selected bits is below `n_bits` (tk.py:274, 323-324). -/
+theorem from_tk_importable (inp : TkIn) (h : inp.wellFormed = true) : inp.importable = true :=
+  Tk.importable_of_wellFormed h
+
+/-- **The import is defined** on every importable tket circuit whose post-processing has as many
+    inputs as there are non-post-selected bits (as `Circuit.upgrade` and `to_tk` make it). -/
+theorem from_tk_total (inp : TkIn) (himp : inp.importable = true) (hpp : inp.pp.dom = inp.nbits) :
+    ∃ d, fromTk inp = .ok d :=
+  Tk.fromTk_total himp hpp
+
+/-- The import of a well-formed tket circuit, all in one: it is defined, well-typed, every gate
+    sits on the units tket names, and its `Bra`s are the post-selected measurements. -/
+theorem from_tk_import_partial (inp : TkIn) (hwf : inp.wellFormed = true) (hpp : inp.pp.WT)
+    (hdom : inp.pp.dom = inp.nbits) :
+    ∃ d, fromTk inp = .ok d ∧ wellTyped [] d.layers = true ∧ scanCod [] d.layers = List.replicate inp.pp.cod .b ∧
+      (Tr.run d.layers).cmds = (ImpSpec.run inp).cmds ∧ (Tr.run d.layers).bras = (ImpSpec.run inp).braList inp := by
+  have himp := Tk.importable_of_wellFormed hwf
+  obtain ⟨d, hd⟩ := Tk.fromTk_total himp hdom
+  obtain ⟨⟨w1, w2⟩, hdm, hcd⟩ := Tk.fromTk_WT hpp hd
+  obtain ⟨t1, t2⟩ := Tk.fromTk_trace himp hd
+  rw [hdm] at w1 w2
+  exact ⟨d, hd, w1, by rw [w2, hcd], t1, t2⟩
+
 /-- `tk.Circuit(1, 1).H(0).Measure(0, 0).H(0).post_select({0: 0})`. -/
 def inF33 : TkIn := ⟨1, 1, [⟨"H", none, [0], []⟩, ⟨"Measure", none, [0], [0]⟩, ⟨"H", none, [0], []⟩], [(0, 0)], false, {}⟩
 
@@ -190,7 +218,10 @@ def inEx : TkIn := ⟨3, 3, [⟨"H", none, [0], []⟩, ⟨"CX", none, [2, 0], []
   ⟨"SWAP", none, [0, 2], []⟩, ⟨"Measure", none, [1], [1]⟩, ⟨"Rx", some 4, [2], []⟩, ⟨"CZ", none, [0, 2], []⟩,
   ⟨"Measure", none, [2], [0]⟩], [(1, 1)], false, ⟨2, 2, []⟩⟩
 
-example : inEx.importable = true ∧ inEx.psFinal = true ∧ isOk (fromTk inEx) = true := by decide
+example : inEx.wellFormed = true ∧ inEx.importable = true ∧ inEx.psFinal = true ∧ isOk (fromTk inEx) = true ∧
+    inEx.pp.dom = inEx.nbits := by decide
+
+example : inEx.pp.WT := by simp [PP.WT, D.WT, PP.toD, inEx, wellTyped, scanCod]
 
 /-- The hypotheses of the import theorems are met by it: the SWAP exchanged the ids 0 and 2, the
     measurement into bit 2 (rank 1) writes wire 3 + 1, the one into bit 0 writes wire 3 + 0. -/
